@@ -27,6 +27,13 @@ CHECKS = [
         "text": "Decides for every batch/schedule: every way of leaving a picked-up job's iteration passes a jobs.<job_id>.status publish for that message's id; the master completes a pending future exactly once (set_result xor set_exception) under the membership guard and removes the entry; a failure path exists whose marker test is true for every value a worker failure can write and false for successes; the future is registered before the job is queued; job id, channel templates and metadata/context keys agree hop by hop and the payload/pipeline executed come from this message only; the in-memory transport rules of C14 (the hand-over mechanism the anchors name) hold.",
         "note": "Assumes logger calls and the failure handlers themselves do not raise before publishing, uuid4 uniqueness, and CPython atomicity as in C14. Does not decide equality of the delivered result with a direct run.",
     },
+    {
+        "property_id": "C06",
+        "design_ref": "DESIGN.md section 3, C06",
+        "technique": "static analysis: CFG of execute() with Exception/BaseException edges and inlined finally, occurrence counting ({0,1,many}) of driver calls per exit kind under the folded assumption 'trace present', writer/schema table agreement, JSON-safety of emitted leaves, def-use of ids",
+        "text": "Decides for every pipeline, failure point and failure class at once: after pipeline_start every exit of execute passes exactly one pipeline_end (ok iff return; error ends re-raise), then one flush and one close; from the statement that runs a node, exactly one SER on every path (succeeded on fall-through, error on Exception- and BaseException-class paths) and the exception is re-raised bare; SER/pipeline_end ids derive from those given to pipeline_start, node ids follow canonical order, upstream lists are the inverted canonical edges; driver record literals contain every schema-required key with matching consts/enums and the registry maps each emitted type to an existing schema; values reaching pipeline_start are JSON-safe by construction; one JSON line per record.",
+        "note": "Assumes driver methods do not raise, BaseException only at call sites, and (for the per-node rule) that only node execution, explicit raise and _publish are failure points. Content validity of free-form fields and disk faults are not decided.",
+    },
 ]
 _TODO = "check not built yet in this session (planned: DESIGN.md section 3); not claimed until its rules run clean and fire on their variants"
 NOT_APPLICABLE = [
